@@ -87,15 +87,25 @@ Print Assumptions C05_del_exact.
 
 (* ---- a failed operation changes nothing.
    FULL statement (DESIGN.md C05_err_unchanged): for every op, step s o = Err s' -> s' = s.
-   Proved for the atomic operations (add_atom incl. malformed coordinate, new_atom, del_atom, connect,
-   append_bond(s), del_bond).  NOT proved for the two composite operations: remove_substituent and
-   add_implicit_hydrogens perform several edits and can raise in the middle in the code itself
-   (remove_substituent(a, a) on a self-loop deletes a and then fails to connect; a later target of
-   add_implicit_hydrogens that is not an atom of the molecule raises after earlier targets were
-   completed); for those C05_inv_step / C05_keeps_step still cover the state left behind. *)
+   Proved (1) for the atomic operations (add_atom incl. a malformed coordinate, new_atom, del_atom,
+   connect, append_bond(s), del_bond) and (2) for remove_substituent(a1, a2) with a1 given as an Atom
+   object and a1 <> a2: once the checks at its beginning have passed, none of the deletions, the
+   add_atom or the connect can raise (uses the BFS invariant: every yielded atom is an atom of the
+   molecule, none is yielded twice, a1 is never yielded).
+   NOT proved, because false for the code as it is: remove_substituent(a, a) on a self-loop deletes a
+   and then fails to connect; add_implicit_hydrogens with several targets raises at a later target that
+   is not an atom of the molecule after the earlier ones were completed.  Not proved although true:
+   remove_substituent with a1 designated by label / element.  For all of those C05_inv_step and
+   C05_keeps_step still cover the state that is left behind. *)
 Theorem C05_err_unchanged_partial : forall s o s', Inv s -> atomic o = true -> step s o = Err s' -> s' = s.
 Proof. exact err_unchanged. Qed.
 Print Assumptions C05_err_unchanged_partial.
+
+Theorem C05_err_unchanged_remove_substituent_partial : forall s x1 s2 l s', Inv s ->
+  (forall a2, get_atom s s2 = Some a2 -> a_id a2 <> x1) ->
+  step s (RemoveSubst (ByObj x1) s2 l) = Err s' -> s' = s.
+Proof. exact rs_err_unchanged. Qed.
+Print Assumptions C05_err_unchanged_remove_substituent_partial.
 
 (* ---- every correspondence case the kernel accepts is an instance of the theorems above *)
 Theorem C05_check_case_sound : forall c, check_case c = true ->
